@@ -315,9 +315,11 @@ func writerCases(r *rng.R, n int) {
 // written, and the real assembler must deliver their bytes and count them. Not replayed on the
 // model (the lines would be megabytes long): the oracle is the harness's.
 func writerBigCases(r *rng.R) {
-	sizes := []int{4<<20 - 1024 - 3, 4<<20 - 1024 + 1 + r.Intn(900), 4<<20 - 1024 + 512, 1 << 20, 2 << 20, 1<<20 + 1, 64 << 10}
+	// (4 MiB - 1 KiB is pkg.DefaultMaxFrameSize, where the full frames of a busy writer end, and a natural
+	// message size for a writer that splits: exact multiples of it are boundary cases of any splitting)
+	sizes := []int{4<<20 - 1024 - 3, 4<<20 - 1024 + 1 + r.Intn(900), 4<<20 - 1024 + 512, 1 << 20, 2 << 20, 1<<20 + 1, 64 << 10, 4<<20 - 1024, 2 * (4<<20 - 1024)}
 	if os.Getenv("VERIF_TIER") == "thorough" {
-		sizes = append(sizes, 4<<20-1024, 4<<20-1024+1, 4<<20-1, 4<<20+1, 9<<20+r.Intn(1000))
+		sizes = append(sizes, 4<<20-1024+1, 4<<20-1, 4<<20+1, 9<<20+r.Intn(1000), 3*(4<<20-1024), 4<<20, 8<<20)
 	}
 	for i, sz := range sizes {
 		name := fmt.Sprintf("cw-big-%d", i)
